@@ -367,6 +367,7 @@ func runCrashEnum(c *Ctx, prop string) {
 		seed := srng.Int63()
 		// reference run (every child, uncounted)
 		nPoints := 0
+		kFirst := 0
 		{
 			dir := filepath.Join(c.Work, fmt.Sprintf("enum-ref-%d", sidx))
 			sp := *sp0
@@ -375,6 +376,7 @@ func runCrashEnum(c *Ctx, prop string) {
 					o := e2eRun(c, seed, &sp, dir)
 					if prop == "C06" {
 						nPoints = o.recvOps
+						kFirst = o.recvOpsQuiet // a second act: its steps are the crash points of interest (the first act is shape 2)
 					} else {
 						nPoints = o.actions
 					}
@@ -387,10 +389,13 @@ func runCrashEnum(c *Ctx, prop string) {
 			nPoints = 40
 		}
 		step := 1
-		if nPoints > capK {
-			step = (nPoints + capK - 1) / capK
+		if nPoints-kFirst > capK {
+			step = (nPoints - kFirst + capK - 1) / capK
 		}
-		for k := 1 + (sidx % step); k <= nPoints+2; k += step {
+		if os.Getenv("VERIF_ENUM_DEBUG") != "" {
+			fmt.Fprintf(os.Stderr, "ENUMDEBUG prop=%s sidx=%d shape=%d nPoints=%d kFirst=%d step=%d\n", prop, sidx, sidx%nShapes, nPoints, kFirst, step)
+		}
+		for k := kFirst + 1 + (sidx % step); k <= nPoints+2; k += step {
 			if c.Mine(idx) {
 				sp := *sp0
 				if prop == "C06" {
@@ -406,7 +411,9 @@ func runCrashEnum(c *Ctx, prop string) {
 				}
 				sp.Note = fmt.Sprintf("crash point %d of %d (reference run)", k, nPoints)
 				dir := filepath.Join(c.Work, fmt.Sprintf("enum-%d", idx))
-				rs := seed + int64(k)*31
+				// the same PRNG stream as the reference run: up to the crash the history
+				// is the one whose steps were counted, so crash point k is step k
+				rs := seed
 				c.Guard(idx, &sp, func() {
 					bubble(c.T, func() { e2eOne(c, prop, idx, rs, &sp, dir) })
 				})
